@@ -235,13 +235,21 @@ class PickleStorage(StorageInterface):
         for suffix, save_method in attacks:
             e = None
             p = filename.with_suffix(suffix)
+            # Write to a scratch file and move it into place only once it is complete,
+            # so a failed or interrupted save never costs a previous good save
+            tmp = p.with_name(p.name + ".tmp")
             try:
-                with open(p, "wb") as filehandle:
+                with open(tmp, "wb") as filehandle:
                     save_method(node, filehandle)
+                tmp.replace(p)
+                for other_suffix, _ in attacks:
+                    # A stale file of the other flavour must not shadow this save
+                    if other_suffix != suffix:
+                        filename.with_suffix(other_suffix).unlink(missing_ok=True)
                 return
             except Exception as ee:
                 e = ee
-                p.unlink(missing_ok=True)
+                tmp.unlink(missing_ok=True)
         if e is not None:
             raise e
 
